@@ -21,11 +21,12 @@ def seeded_table():
         m = json.load(open(mp))
         need = m.get("needs_to_manifest", "")[:260].replace("|", "\\|").replace("\n", " ")
         fr = m.get("first_result", {})
-        res = ("caught: " + (fr.get("violation") or ["?"])[0][:80]) if fr.get("rc") == 1 else "MISSED by the first version of the check"
+        res = ("caught: " + (fr.get("violation") or ["?"])[0][:90]) if fr.get("rc") == 1 else f"MISSED by the first version of the check (rc={fr.get('rc')})"
         if m.get("after_strengthening"):
-            res += "; after strengthening: " + m["after_strengthening"]["result"][:200]
-        for extra in m.get("other_checks", []):
-            res += f"; {extra}"
+            a = m["after_strengthening"]
+            res += f"; after strengthening ({a.get('what', '')}): {a['check']} → " + a["result"][:160]
+        if m.get("caught_by_other_check"):
+            res += "; also caught by " + ", ".join(m["caught_by_other_check"])
         rows.append(f"| seeded/{os.path.basename(d)} | {m['property']} | {need} | {res} |")
     return "\n".join(rows)
 def status_table():
